@@ -1,7 +1,9 @@
 """C08 — framing renderables draw exact rectangles around intact content.
 
-Correspondence: Lean model (Model/Frames, FramesTree, FramesColumns) vs rich.panel / padding / align / constrain /
-styled / rule / bar / progress_bar / tree / columns, in-process, text for text (children are tabulated oracles).
+Correspondence: Lean model (Model/Frames, FramesStyled, FramesTitle, FramesTree, FramesColumns; Columns rendered through
+Model/Layout and Model/Table) vs rich.panel / padding / align (Align, VerticalCenter) / constrain / styled / rule / bar /
+progress_bar / tree / columns, in-process (children are tabulated oracles): Padding / Panel / Align / Styled / VerticalCenter /
+Rule segment style by segment style, Bar / ProgressBar / Tree / Columns text for text.
 Direct evaluation (3d): the executable statements of the theorems in Props/C08.lean on rich's own output, with an
 oracle written here from the property text (independent of the Lean model).
 """
@@ -14,8 +16,8 @@ from lib_frames import Batch, Env, Leaf, box_names, build, canon_measure, canon_
 
 PROPERTY = "C08"
 
-# CODE VARIANT FLAGS — the value that matches the code in /repo as it is now (see Model/Frames.lean `Variant`): 1 = rich 9.10.0 as
-# found, 0 = repaired; all four defects are repaired in /repo.
+# CODE VARIANT FLAGS — the value that matches the code in /repo as it is now (see Model/Frames.lean `Variant` and
+# Model/FramesStyled.lean `SVariant`): 1 = rich 9.10.0 as found, 0 = repaired; all seven defects are repaired in /repo, all seven flags are 0.
 # 1 = Align / Padding(expand=False) / Panel(expand=False) render a child whose measured maximum is 0 at width 0
 #     (nothing is drawn: pre-finding F25); 0 = the repair (fix a9def3a = pending_fixes/C08-zero-width-child.diff), in /repo now.
 ZERO_WIDTH_CHILD = 0
@@ -31,13 +33,13 @@ RSTRIP_COUNTS_CHARS = 0
 COLUMNS_ZERO_COUNT = 0
 # 1 = Console.render_lines(..., style=s) restyles the rendered segments but pads short lines with style None, so the blanks that
 #     complete a child's line inside Panel(style=…) are unstyled (finding panel-content-pad-unstyled);
-#     0 = the repair in pending_fixes/C08-render-lines-pad-style.diff is applied.
+#     0 = the repair (fix 63e086e = pending_fixes/C08-render-lines-pad-style.diff), in /repo now.
 LINES_PAD_UNSTYLED = 0
 # 1 = Panel renders its title with console.render(title_text) — at console.width, not at the width it aligned the title to — so a
 #     panel rendered with options wider than the console gets a cropped top border (finding panel-title-at-console-width);
-#     0 = the repair in pending_fixes/C08-panel-title-width.diff is applied.
+#     0 = the repair (fix 0e1edf7 = pending_fixes/C08-panel-title-width.diff), in /repo now.
 TITLE_AT_CONSOLE_WIDTH = 0
-# 1 = a Rule without title ignores its `end` option (rule.py:62); 0 = the repair in pending_fixes/C08-rule-no-title-end.diff is applied.
+# 1 = a Rule without title ignores its `end` option (rule.py:62); 0 = the repair (fix a442cbd = pending_fixes/C08-rule-no-title-end.diff), in /repo now.
 RULE_NO_TITLE_END = 0
 VARIANT = (ZERO_WIDTH_CHILD + 2 * RULE_RIGHT_REPEAT + 4 * RSTRIP_COUNTS_CHARS + 8 * COLUMNS_ZERO_COUNT + 16 * LINES_PAD_UNSTYLED
            + 32 * TITLE_AT_CONSOLE_WIDTH + 64 * RULE_NO_TITLE_END)
@@ -913,10 +915,13 @@ def run(ctx):
         run_columns(ctx, env, rng, 45 if quick else 450)
     ctx.rule = (
         "per console environment (%d of them: widths %s, ascii_only / legacy_windows / no_color / colour systems / safe_box): every one of %d leaf children "
-        "(empty, one word, wrapping, multi-line, wide, zero-width, centred, right, no_wrap+ellipsis, blank lines, Panel, str, Table, tab) under every option class "
-        "of Padding / Align / Constrain / Styled, seeded random Panel options (all 19 boxes, 7 titles, 3 alignments, expand, width, padding, safe_box), "
-        "random nested frames to depth 3, random trees, rules (9 titles x 7 `characters` x 3 alignments), bars and progress bars (grid + random ints / dyadic), "
-        "each at every available width 0..console+3 (or a sample when wide); Columns: item counts 0..13 x options x widths. "
+        "(empty, one word, wrapping, multi-line, wide, zero-width, centred, right, no_wrap+ellipsis, blank lines, Panel, str, Table, tab; quick tier: all of them "
+        "in the first environment, a sample of 8 / 4 in the others) under every option class "
+        "of Padding / Align / Constrain / Styled / VerticalCenter (with styles), seeded random Panel options (all 19 boxes, 11 titles of which 6 in the one-line simple "
+        "domain, some as Text with spans / justify / overflow / tab_size, 3 alignments, expand, width, padding, safe_box, style, border_style), "
+        "random nested frames to depth 3, random trees, Columns of leaves rendered to the characters, rules (9 titles x 7 `characters` x 3 alignments x `end`, "
+        "plus 6 markup / tab / span titles), bars and progress bars (grid + random ints / dyadic), "
+        "each at every available width 0..console+3, +6, +8 (or a sample when wide); Columns grid: item counts 0..13 x options x widths. "
         "distinct = distinct (environment, leaves, query) requests" % (len(envs), [e.width for e in envs], nl)
     )
 
@@ -950,8 +955,11 @@ MANIFEST = {
     "Partial: styles of Bar / ProgressBar / Tree guides / the inner table of Columns are not modelled (text only); Style.__add__ is restated on the five compared fields "
     "in the driver (C06 owns the proof about the real class); Bar / ProgressBar floats are exact rationals (generated inputs are ints / dyadic); "
     "Panel `highlight`, Tree `highlight`, `Text.render` raising on inconsistent spans (answers `unmodelled`). "
-    "Known finding: progressbar-no-newline (F23).  Findings of the deepening round awaiting a decision: panel-content-pad-unstyled, panel-title-at-console-width "
-    "(+ panel-title-ellipsis-in-zero-cells, same repair), rule-no-title-ignores-end — repairs in pending_fixes/C08-render-lines-pad-style.diff, "
-    "C08-panel-title-width.diff, C08-rule-no-title-end.diff.",
+    "Panel titles / Rule texts as Text objects (Model/FramesTitle.lean) are compared with rich, no theorem is stated about them. "
+    "Code variant flags, all 0 = repaired, the code in /repo now: ZERO_WIDTH_CHILD = 0 (fix a9def3a), RULE_RIGHT_REPEAT = 0 (fix 8879061), "
+    "RSTRIP_COUNTS_CHARS = 0 (fix f5f2be9), COLUMNS_ZERO_COUNT = 0 (fix f7ecf83), LINES_PAD_UNSTYLED = 0 (fix 63e086e; finding panel-content-pad-unstyled), "
+    "TITLE_AT_CONSOLE_WIDTH = 0 (fix 0e1edf7; findings panel-title-at-console-width and panel-title-ellipsis-in-zero-cells), "
+    "RULE_NO_TITLE_END = 0 (fix a442cbd; finding rule-no-title-ignores-end). "
+    "Known finding, reported as KNOWN-FINDING lines (not a violation): progressbar-no-newline (F23; a ProgressBar emits no line end, pinned by tests/test_bar.py, not repaired).",
     "design_ref": "DESIGN.md section 7 (C01, C07, C08, C09 block) and section 8 (F11, F23, F25)",
 }
